@@ -312,6 +312,21 @@ pub fn make_header(cfg: &PicCfg, ptype: u8, rng: &mut Rng) -> Hdr {
     }
 }
 
+/// Make a standard-mode PLUSPTYPE picture header not restate its source format (UFEP = 000): the
+/// format of the previous picture stays in force. Only for predicted pictures whose OPPTYPE modes
+/// are all off (nothing else is inherited then). Returns whether the header was changed.
+pub fn drop_format(pic: &mut SymPicture) -> bool {
+    if let Hdr::Std(h) = &mut pic.hdr {
+        if let Some(p) = h.plus.as_mut() {
+            if p.ptype != 0 && p.ufep == 1 && !(p.custom_pcf || p.umv || p.sac || p.ap || p.aic || p.df || p.ss || p.rps || p.isd || p.aiv || p.mq) {
+                p.ufep = 0;
+                return true;
+            }
+        }
+    }
+    false
+}
+
 fn gen_dquant(rng: &mut Rng, bias: i8) -> i8 {
     // bias != 0 drives the quantiser towards a clamp
     if bias > 0 && rng.chance(3, 4) {
